@@ -211,6 +211,30 @@ pub fn run_case(ctx: &mut Ctx, fam: &str, k: u64, r: &mut Rng) {
                     _ => a.reshape(dims.to_vec()),
                 }
             };
+            // two handles over ONE buffer with different dimensions (a reshaped view) are different arrays
+            if n > 1 && r.chance(1, 3) {
+                let alt: Vec<usize> = if d.len() == 1 { vec![1, n] } else { vec![n] };
+                ctx.count("equality_cells", 1);
+                ctx.hist("equality_table", "shared-buffer dims-ne values-eq");
+                match guard(|| {
+                    let a = arr(&d, &v);
+                    let a = if r.chance(1, 2) { a.tracked() } else { a };
+                    let view = a.reshape(alt.clone());
+                    let same = a.reshape(d.clone());
+                    let alias = a.sum(0);
+                    (a == view, view == a, a == same, a == alias, a == a.clone())
+                }) {
+                    Ok((e1, e2, e3, e4, e5)) => {
+                        if e1 || e2 {
+                            ctx.violation("C16|equality|shared-buffer-different-dims", format!("Array{:?} == its reshape to {:?} (same buffer, different dimensions) returned true", d, alt));
+                        }
+                        if !e3 || !e4 || !e5 {
+                            ctx.violation("C16|equality|shared-buffer-same-dims", format!("Array{:?} != a view/alias/clone of itself with the same dimensions", d));
+                        }
+                    }
+                    Err(m) => ctx.violation("C16|equality|panic", format!("== panicked: {}", m)),
+                }
+            }
             let (s1, s2) = (r.below(5), r.below(5));
             ctx.case(&format!("equality|{}{}|{}{}", same_dims as u8, same_vals as u8, s1, s2), true);
             ctx.count("equality_cells", 1);
